@@ -175,29 +175,39 @@ Ltac mk_case w g L U Hw Hg :=
   destruct (mk_sound w g L U Hw Hg) as (r & E & Wr & Br & Gr);
   rewrite E; exists r; split; [reflexivity|]; split; [exact Wr|]; split; [exact Br|].
 
-Theorem union_sound a b : wf a -> wf b -> bits a = bits b ->
-  exists r, si_union a b = Ok r /\ wf r /\ bits r = bits a /\ forall x, gamma a x \/ gamma b x -> gamma r x.
+Theorem join_sound smart a b : wf a -> wf b -> bits a = bits b ->
+  exists r, si_join smart a b = Ok r /\ wf r /\ bits r = bits a /\ forall x, gamma a x \/ gamma b x -> gamma r x.
 Proof.
   intros Wa Wb Hb. pose proof (wf_N a Wa) as HN.
   pose proof Wa as (Ba & Hw & Hsa & Hla & Hua). pose proof Wb as (Bb & _ & Hsb & Hlb & Hub).
   rewrite <- Hb in Hlb, Hub.
-  unfold si_union. replace (bits a =? bits b) with true by (symmetry; apply Z.eqb_eq; exact Hb). cbn [negb].
+  unfold si_join. replace (bits a =? bits b) with true by (symmetry; apply Z.eqb_eq; exact Hb). cbn [negb].
   rewrite Ba, Bb.
   set (N := Nof a) in *.
   assert (Hoffb : forall l v, off (Nof b) l v = off N l v) by (intros; unfold N; rewrite Hb; reflexivity).
   destruct (is_integer a && is_integer b) eqn:Eint.
   { (* two integers *)
     apply andb_true_iff in Eint as [Ea Eb]. unfold is_integer in Ea, Eb. apply Z.eqb_eq in Ea, Eb.
-    mk_case (bits a) (Z.abs (Z.max (ub a) (ub b) - Z.min (lb a) (lb b))) (Z.min (lb a) (lb b)) (Z.max (ub a) (ub b)) Hw (Z.abs_nonneg (Z.max (ub a) (ub b) - Z.min (lb a) (lb b))).
+    set (upper := if smart then Z.max (ub a) (ub b) else ub b).
+    set (lower := if smart then Z.min (lb a) (lb b) else lb a).
+    assert (Hmn : 0 <= modN a (upper - lower)) by (unfold modN; fold N; apply Z.mod_pos_bound; exact HN).
+    mk_case (bits a) (modN a (upper - lower)) lower upper Hw Hmn.
     intros x Hx. apply Gr.
     assert (Hx' : x = lb a \/ x = lb b) by (destruct Hx as [Hx|Hx]; [left; apply gamma_int; auto|right; apply gamma_int; auto]).
-    apply gamma_intro with (t := x - Z.min (lb a) (lb b)).
-    - lia.
-    - destruct Hx' as [-> | ->]; destruct (Z_le_gt_dec (lb a) (lb b));
-        rewrite ?Z.min_l, ?Z.min_r, ?Z.max_l, ?Z.max_r by lia; rewrite ?Z.sub_diag;
-        try apply Z.divide_0_r; rewrite <- ?Ea, <- ?Eb; rewrite ?Z.abs_eq by lia; try apply Z.divide_refl.
-    - rewrite Z.mod_small by lia. lia.
-    - fold N. rewrite Z.mod_small by lia. lia. }
+    unfold modN. fold N.
+    assert (Hlo : 0 <= lower < N) by (unfold lower; destruct smart; lia).
+    assert (Hup : 0 <= upper < N) by (unfold upper; destruct smart; lia).
+    assert (Hends : (x = lower \/ x = upper)).
+    { unfold lower, upper. destruct smart; [|destruct Hx' as [->| ->]; [left; reflexivity|right; exact Eb]].
+      destruct Hx' as [-> | ->]; destruct (Z_le_gt_dec (lb a) (lb b));
+        rewrite ?Z.min_l, ?Z.min_r, ?Z.max_l, ?Z.max_r by lia; lia. }
+    destruct Hends as [-> | ->].
+    - apply gamma_intro with (t := 0); [exact Hmn|apply Z.divide_0_r| |].
+      + fold N. pose proof (Z.mod_pos_bound (upper - lower) N HN). lia.
+      + fold N. rewrite Z.add_0_r. symmetry. apply Z.mod_small. exact Hlo.
+    - apply gamma_intro with (t := (upper - lower) mod N); [exact Hmn|apply Z.divide_refl| |].
+      + fold N. pose proof (Z.mod_pos_bound (upper - lower) N HN). lia.
+      + fold N. rewrite Zplus_mod_idemp_r. replace (lower + (upper - lower)) with upper by lia. symmetry. apply Z.mod_small. exact Hup. }
   destruct (is_surrounded a b) eqn:Sab.
   { (* the arc of a lies within the arc of b *)
     set (g0 := if negb (is_integer a) then Z.gcd (stride a) (stride b) else stride b).
@@ -317,10 +327,8 @@ Proof.
     apply Z.gcd_eq_0_r in E. unfold modN in E. fold N in E. unfold off in Pos2. lia. }
   destruct (mk_sound (bits a) g1 (lb b) (ub a) Hw ltac:(lia)) as (r1 & E1 & W1 & B1' & G1).
   destruct (mk_sound (bits a) g2 (lb a) (ub b) Hw ltac:(lia)) as (r2 & E2 & W2 & B2' & G2).
-  rewrite E1, E2. cbn [bind].
   destruct (n_values_ok r1 (mk_stride_pos _ _ _ _ _ Hw Hg1 Hlb Hua Dne1 E1)) as (n1 & En1).
   destruct (n_values_ok r2 (mk_stride_pos _ _ _ _ _ Hw Hg2 Hla Hub Dne2 E2)) as (n2 & En2).
-  rewrite En1, En2. cbn [bind].
   assert (S1 : forall x, gamma a x \/ gamma b x -> gamma r1 x).
   { intros x Hx. apply G1. destruct Hx as [Hx|Hx].
     - apply (arc_in (bits a) g1 (lb b) (ub a) a x Wa eq_refl); [lia|exact Hx| |apply Z.gcd_divide_r|].
@@ -339,5 +347,12 @@ Proof.
     - apply (arc_in (bits a) g2 (lb a) (ub b) b x Wb (eq_sym Hb)); [lia|exact Hx| |apply Z.gcd_divide_r|].
       + rewrite span_off, Hoffb. exact A2.
       + destruct Dg0b as [D|D]; [left; eapply Z.divide_trans; [apply Z.gcd_divide_l|exact D]|right; exact D]. }
-  destruct (n1 <=? n2); eexists; (split; [reflexivity|]); auto.
+  destruct smart; cbn [negb].
+  - rewrite E1, E2. cbn [bind]. rewrite En1, En2. cbn [bind].
+    destruct (n1 <=? n2); eexists; (split; [reflexivity|]); auto.
+  - rewrite E2. eexists; (split; [reflexivity|]); auto.
 Qed.
+
+Theorem union_sound a b : wf a -> wf b -> bits a = bits b ->
+  exists r, si_union a b = Ok r /\ wf r /\ bits r = bits a /\ forall x, gamma a x \/ gamma b x -> gamma r x.
+Proof. exact (join_sound true a b). Qed.
